@@ -50,6 +50,34 @@ theorem inv_bal2 {s : State} (b2 : List (Addr × Int)) : Inv { s with bal2 := b2
   ⟨fun h => ⟨(wf_bal2 b2).1 h.wf, h.supply, h.pool, h.index, h.queue, h.unstakedEmpty, h.sign, h.prevOK⟩,
    fun h => ⟨(wf_bal2 b2).2 h.wf, h.supply, h.pool, h.index, h.queue, h.unstakedEmpty, h.sign, h.prevOK⟩⟩
 
+/-- well-formedness does not mention the upgrade plan -/
+theorem wf_upgrade {s : State} (u : Int × String) : WF { s with upgrade := u } ↔ WF s :=
+  ⟨fun h => ⟨h.balAsc, h.balPos, h.valsAsc, h.tokNonneg, h.statusOK, h.signAsc, h.prevAsc, h.awardsAsc, h.burnsAsc,
+      h.modsDistinct, h.keysNotMods, h.valsAreKeys, h.minStakeNonneg⟩,
+   fun h => ⟨h.balAsc, h.balPos, h.valsAsc, h.tokNonneg, h.statusOK, h.signAsc, h.prevAsc, h.awardsAsc, h.burnsAsc,
+      h.modsDistinct, h.keysNotMods, h.valsAreKeys, h.minStakeNonneg⟩⟩
+
+/-- the invariant does not mention the upgrade plan -/
+theorem inv_upgrade {s : State} (u : Int × String) : Inv { s with upgrade := u } ↔ Inv s :=
+  ⟨fun h => ⟨(wf_upgrade u).1 h.wf, h.supply, h.pool, h.index, h.queue, h.unstakedEmpty, h.sign, h.prevOK⟩,
+   fun h => ⟨(wf_upgrade u).2 h.wf, h.supply, h.pool, h.index, h.queue, h.unstakedEmpty, h.sign, h.prevOK⟩⟩
+
+/-- an accepted upgrade message: the sender is the owner the ACL names for `gov/upgrade`; only the plan changes -/
+theorem handle_upgrade_some {s s1 : State} {src : Addr} {hh : Int} {ver : String}
+    (h : handle s (.upgrade src hh ver) = some s1) :
+    s.acl.lookup "gov/upgrade" = some src ∧ s1 = { s with upgrade := (hh, ver) } := by
+  simp only [handle] at h
+  split at h
+  · simp at h
+  · rename_i owner ho
+    split at h
+    · simp at h
+    · rename_i hne
+      have e : owner = src := by simpa using hne
+      subst e
+      simp only [Option.some.injEq] at h
+      exact ⟨ho, h.symm⟩
+
 theorem wf_send2_getD {s : State} (src dst : Addr) (amt : Int) : WF ((send2 s src dst amt).getD s) ↔ WF s := by
   rw [send2_getD_frame]; exact wf_bal2 _
 theorem inv_send2_getD {s : State} (src dst : Addr) (amt : Int) : Inv ((send2 s src dst amt).getD s) ↔ Inv s := by
@@ -88,6 +116,7 @@ theorem inv_rewardFromFees2 {s : State} : Inv (rewardFromFees2 s) ↔ Inv s := b
 @[simp] theorem index_setBal2 (s : State) (a : Addr) (x : Int) : (setBal2 s a x).index = s.index := rfl
 @[simp] theorem blockTxs_setBal2 (s : State) (a : Addr) (x : Int) : (setBal2 s a x).blockTxs = s.blockTxs := rfl
 @[simp] theorem supply2_setBal2 (s : State) (a : Addr) (x : Int) : (setBal2 s a x).supply2 = s.supply2 := rfl
+@[simp] theorem upgrade_setBal2 (s : State) (a : Addr) (x : Int) : (setBal2 s a x).upgrade = s.upgrade := rfl
 @[simp] theorem bal_send2_getD (s : State) (src dst : Addr) (amt : Int) : ((send2 s src dst amt).getD s).bal = s.bal := by
   rw [send2_getD_frame]
 theorem bal_send2 {s s1 : State} {src dst : Addr} {amt : Int} (h : send2 s src dst amt = some s1) : s1.bal = s.bal := by
@@ -261,6 +290,12 @@ theorem blockTxs_send2 {s s1 : State} {src dst : Addr} {amt : Int} (h : send2 s 
 theorem supply2_send2 {s s1 : State} {src dst : Addr} {amt : Int} (h : send2 s src dst amt = some s1) : s1.supply2 = s.supply2 := by
   rw [send2_frame h]
 @[simp] theorem supply2_rewardFromFees2 (s : State) : (rewardFromFees2 s).supply2 = s.supply2 := by
+  rw [rewardFromFees2_frame]
+@[simp] theorem upgrade_send2_getD (s : State) (src dst : Addr) (amt : Int) : ((send2 s src dst amt).getD s).upgrade = s.upgrade := by
+  rw [send2_getD_frame]
+theorem upgrade_send2 {s s1 : State} {src dst : Addr} {amt : Int} (h : send2 s src dst amt = some s1) : s1.upgrade = s.upgrade := by
+  rw [send2_frame h]
+@[simp] theorem upgrade_rewardFromFees2 (s : State) : (rewardFromFees2 s).upgrade = s.upgrade := by
   rw [rewardFromFees2_frame]
 
 @[simp] theorem balOf_send2_getD (s : State) (src dst : Addr) (amt : Int) (q : Addr) :
